@@ -41,6 +41,8 @@ class EventLog:
         self.events: List[tuple] = []   # (kind, payload)
         self.sentinels: Dict[str, asyncio.Event] = {}
         self.raise_on: Optional[Callable[[Any, int], bool]] = None
+        # what a user callback may raise: anything, including exceptions that look like transport errors
+        self.exc_types = (CallbackBoom, ConnectionRefusedError, ValueError, TimeoutError, KeyError, RuntimeError, BrokenPipeError, OSError)
         self.deliveries = 0
 
     def callback(self, device) -> None:
@@ -51,7 +53,8 @@ class EventLog:
             ev.set()
             return
         if self.raise_on is not None and self.raise_on(device, self.deliveries):
-            raise CallbackBoom(f"user callback fails on delivery {self.deliveries}")
+            exc = self.exc_types[self.deliveries % len(self.exc_types)]
+            raise exc(f"CallbackBoom: user callback fails on delivery {self.deliveries}")
 
     def clear(self) -> None:
         self.events.clear()
